@@ -30,7 +30,9 @@ CLAIMS = {
               "by ordinary truth of the surface condition (membership, order, multiplicity). Proved by structural induction "
               "(eval_bound / eval_unbound) over unbounded trees and domains, through the elaborator whose tables are regenerated from "
               "/repo on every run. The P-model is tied to symbolic.py by comparing exact result sequences of generated cases on every run "
-              "(caching disabled), and the implementation is compared with the specification with caching enabled and on re-evaluation."),
+              "(caching disabled), and the implementation is compared with the specification with caching enabled and on re-evaluation; "
+              "15 % of the cases are HISTORIES over a lazily consumed one-shot domain (C01_over_lazy_domain: the answer is the filter of the "
+              "domain's content however much of it earlier, possibly abandoned, evaluations have read)."),
         design='7/C01', technique='Coq proof (structural induction over the expression tree; P-model) + translator-regenerated tables + model/implementation correspondence on result sequences',
         note=BASE_NOTE + " The stateful layer (de-duplication sets, lazy domain, result caches) is not in the proved model: it is covered by the correspondence only; cache-path row loss is known finding C05-wildcard-retrieval."),
     'C02': dict(
@@ -60,12 +62,17 @@ CLAIMS = {
 
     'C05': dict(
         text=("PARTIAL. Proved (unbounded histories of lookups): an operator answering covered lookups from a memo returns exactly the "
-              "uncached results provided stored entries are the uncached results of their lookups (C05_memo_transparent_partial). The "
-              "concrete index is modelled and decided separately (C20: coverage proved, retrieval completeness refuted). NOT proved: that "
-              "the five cache call sites of symbolic.py meet the contract - that part is covered by the correspondence check only: every "
+              "uncached results provided stored entries are the uncached results of their lookups (C05_memo_transparent_partial); and "
+              "C05_indexed_full_rows: the call-site shape the five cache sites of symbolic.py share (coverage check -> replay what retrieval "
+              "returns; otherwise evaluate, yield, store every row) on top of the CONCRETE index (the line-by-line model of "
+              "cache_data.IndexedCache / SeenSet, tied to the code by C20's operation-level correspondence) returns, over any history of "
+              "lookups binding at least one key, exactly the uncached rows with their flags - for every operator whose rows bind every "
+              "cache key (no wildcard ever enters the index: C20_retrieve_sound + C20_retrieve_complete_unmixed + C20_check do the work). "
+              "NOT proved: rows that leave a cache key open (there retrieval completeness is refuted, C20), and that each call site of "
+              "symbolic.py has the modelled shape / which yield_when_false a row was stored under - covered by the correspondence check: every "
               "generated query (all shapes) is run twice with caching disabled and twice enabled on fresh objects and the four row "
               "multisets are compared with each other and with the specification, with cache-hit counts in the evidence."),
-        design='7/C05', technique='Coq proof for the abstract memo (contract preservation by induction over lookup histories) + differential correspondence cache on/off',
+        design='7/C05', technique='Coq proof for the abstract memo and for the concrete index under full-row operators (invariant over lookup histories; soundness / completeness / coverage theorems of the index model) + differential correspondence cache on/off',
         note=BASE_NOTE + " The cached path of the implementation (in-place mutation and aliasing of binding dictionaries) is abstracted; known finding C05-wildcard-retrieval."),
     'C06': dict(
         text=("Machine-checked: C06_none / C06_value / C06_many decide the outcome of `the` by the number of satisfying assignments (0, 1, >= 2) "
@@ -92,32 +99,40 @@ CLAIMS = {
         text=("Machine-checked: C15_inline_sat (inlining every sub-query used as a condition preserves truth) and C15_inline_rows (the composed and "
               "the inlined query return the same rows for any selection, heap and domains): the nested An node is part of the fragment of the "
               "partition invariant (eval_cover handles CSub, including the sub-query's own selected variables being bound). Tie: generated "
-              "queries with sub-queries under & and | compared with the model and with the specification that reads them inlined."),
+              "queries with sub-queries under & and | (also as the only condition, selecting a proper subset of the variables it mentions) and "
+              "as comparison OPERANDS - an(...) over a further variable, and the(...) correlated with the enclosing query - compared with the "
+              "model and with the specification that reads them inlined."),
         design='7/C15', technique='Coq proof (CSub case of the partition invariant + C02 soundness/completeness) + correspondence',
-        note=BASE_NOTE + " Operand and constructor-argument positions of a sub-query are not in the model yet (condition position only)."),
+        note=BASE_NOTE + " In operand position a sub-query is read, by elaboration in the harness, as the comparison and-ed with the sub-query as a condition (tied by the correspondence, not a theorem); constructor-argument position is covered by C13 (nested predicate-form terms) and C11 (nested head arguments)."),
     'C16': dict(
         text=("Machine-checked for every heap, parent domain and inner collection: C16_unnest (parent and element selected: one row per inner "
               "element, each with its parent, in order, with multiplicity), C16_unnest_elem (element only), C16_unnest_filtered (a condition on "
               "the element filters element rows and keeps the correlation). Tie: generated flatten queries (all selections, conditions on "
               "element / parent / both / disjunction / membership) compared as exact row sequences with the model, cache off and on."),
         design='7/C16', technique='Coq proof (direct structural induction over parent domain and inner collection) + correspondence',
-        note=BASE_NOTE + " Conditions other than element-vs-literal are covered by correspondence only; nested tuples are outside the value subset."),
+        note=BASE_NOTE + " Conditions other than element-vs-literal are covered by correspondence only; the value subset has one level of nesting (a tuple of ints as an element of a collection)."),
     'C17': dict(
         text=("Machine-checked: C17_single (exactly one row carrying all inner elements in domain order and inner order with multiplicity, also "
               "for no parent / all-empty collections) and C17_membership (membership and non-membership of an outer variable select exactly the "
-              "(non-)members, in outer order). Tie: generated concatenate queries compared with the model (the list value as a sequence)."),
+              "(non-)members, in outer order), for an expression over one parent variable; C17_single_any / C17_membership_any (the same for ANY "
+              "concatenated expression u: the single value lists, in order, the elements of every row u has) and C17_concat_of_flatten (for u = "
+              "flatten(t) those are the elements of the elements of t: a collection of collections is concatenated one level deeper). Tie: "
+              "generated concatenate queries over scalar attributes, collections, collections of collections (one level of nesting in the "
+              "value model) and flatten(...) of those, compared with the model (the list value as a sequence)."),
         design='7/C17', technique='Coq proof (direct computation on the P-model, induction over the outer domain) + correspondence',
         note=BASE_NOTE + " The inner variable of a concatenation is assumed not to be used elsewhere in the query (the code binds it to a list)."),
     'C18': dict(
         text=("Machine-checked: C18_rewrite_sat (truth is invariant under every composition of: and/or commutativity and re-association, "
               "comparison mirroring, contains vs in_), C18_invariant and C18_domain_permutation (hence the result set, via C02), C18_tables (fold "
               "direction and builders regenerated from the source). Tie: metamorphic pairs - a random query and a random rewrite of it (incl. "
-              "declaration/selection order and permuted domains) - both compared with each other, the model and the specification."),
+              "declaration/selection order and permuted domains) - both compared with each other, the model and the specification; 40 % of the "
+              "pairs are a two-variable conjunction under a disjunction with one variable selected (false rows of the conjunction must be kept "
+              "apart per value of the unselected variable)."),
         design='7/C18', technique='Coq proof (induction over rewrite derivations; corollary of C02) + translator tables + metamorphic correspondence',
         note=BASE_NOTE + " Declaration/selection order changes are column permutations handled by the harness; inherits C02's fragment."),
     'C08': dict(
         text=("Machine-checked for ALL finite histories (any length, any nesting) of block entries / exits / exceptions and iterator creations, "
-              "advances, closes and finalisations: C08_confined (mode = innermost enclosing mode-setting block, expression stack = enclosing "
+              "advances, closes, finalisations and the(...) evaluations (succeeding or failing with the exception handled on the spot): C08_confined (mode = innermost enclosing mode-setting block, expression stack = enclosing "
               "query blocks), C08_block_restores (leaving a block by any path restores what was active before it whatever happened to iterators "
               "inside), C08_outside. The model reads from the source, through the translator on every run, whether a yield of An.evaluate sits "
               "inside `with symbolic_mode(None)`: the theorems stop compiling if it does. Tie: mode variable, in_symbolic_mode(), what a @symbol "
@@ -128,8 +143,12 @@ CLAIMS = {
         text=("Machine-checked: C09_ambient - during evaluation (An.evaluate for an/infer, The.evaluate for the) predicates and instance "
               "construction see NO symbolic mode whatever the ambient mode; proved from the bracketing facts the translator extracts from the "
               "two methods on every run (every advance of the result generator inside `with symbolic_mode(None)`, the call of _evaluate_ in "
-              "The.evaluate inside one). Tie: every quantifier x condition kind (comparison, @predicate function, Predicate subclass, rule "
-              "inference) x dataset evaluated under ambient none / query / rule; the three outcomes must coincide."),
+              "The.evaluate inside one). The translator also re-reads symbolic_mode / rule_mode on every run (the mode found on entry is saved first and "
+              "written back in the finally clause); the block model uses that fact. Tie: every quantifier x condition kind (comparison, "
+              "@predicate function, Predicate subclass, rule inference, a rule over a variable given by keyword only - expanded by the "
+              "library inside a block of its own during evaluation -, a Predicate subclass that builds and evaluates a query inside its "
+              "own symbolic block followed by another class predicate) x dataset evaluated under ambient none / query / rule, and with "
+              "the results of one evaluation drawn partly outside and partly inside a block; the five outcomes must coincide."),
         design='7/C09', technique='Coq proof over translator-extracted facts + differential correspondence across ambient modes',
         note=BASE_NOTE + " The model is the mode seen during evaluation, not the evaluator itself: that predicates/constructors depend on the mode only through in_symbolic_mode() at call time is assumed (read in predicate.py) and validated by the correspondence."),
     'C13': dict(
@@ -147,7 +166,7 @@ CLAIMS = {
         note=BASE_NOTE + " A nested term used as a field value is read as the conjunction of its own equalities (C15's reading of a quantifier used as an operand); that the evaluator treats an An(...) operand so is covered by the correspondence, not by a theorem. Row ORDER of predicate-form queries is not claimed (sets)."),
     'C14': dict(
         text=("Machine-checked for EVERY class forest and EVERY finite history (any length) interleaving concrete construction of any class, "
-              "symbolic construction, rule inference of any number of instances, registry clearing and no-domain queries: C14_registry / "
+              "symbolic construction, rule inference of any number of instances, registry clearing and no-domain queries (complete or abandoned): C14_registry / "
               "C14_query_after (every query of T returns, each exactly once, the concrete constructions of T and of its subclasses since "
               "the last clearing - proved by an invariant relating a line-by-line model of Variable._cache_ / flat_cache / "
               "get_cache_keys_for_class_ to a plain construction log, induction over the history), C14_symbolic_inert (symbolic "
@@ -167,9 +186,11 @@ CLAIMS = {
               "applicable branch of the level, replaced by its first applicable exception, recursively; nothing for items no branch "
               "applies to). Tie: generated programs (depth <= 3 quick, <= 5 thorough) - the operator tree the implementation holds is "
               "compared with the builder model and the intended tree, the (item, conclusion) rows of three consecutive evaluations, "
-              "caching off and on, with the model (sequences) and the ripple-down-rule interpreter (multisets)."),
+              "caching off and on, with the model (sequences) and the ripple-down-rule interpreter (multisets); 40 % of the programs are "
+              "GROWN: the base block is written in several `with rule_mode(query)` blocks with an evaluation of the rule in between "
+              "(C12_grown_alternatives: alternatives attached at the conditions root after re-entering build the tree a single block builds)."),
         design='7/C12', technique='Coq proof (builder correctness by mutual induction with one-hole contexts; evaluation = RDR by mutual induction) + translator-extracted linking flags + structural and result correspondence',
-        note=BASE_NOTE + " One rule variable with conditions on its attributes (a branch is decided per item); joins in branch conditions and next_rule are outside the model. The evaluation model (fire) abstracts ExceptIf/Alternative._evaluate__ for a bound item; it is tied by the row correspondence. Four defects were repaired in /repo (see known_findings.json)."),
+        note=BASE_NOTE + " One rule variable with conditions on its attributes (a branch is decided per item); joins in branch conditions and next_rule are outside the model. Re-entering `with rule_mode(query)` attaches at the conditions root: grown programs are generated only where that is the same program (the root is still the base rule, or only alternatives follow). The evaluation model (fire) abstracts ExceptIf/Alternative._evaluate__ for a bound item; it is tied by the row correspondence. Four defects were repaired in /repo (see known_findings.json)."),
     'C11': dict(
         text=("Machine-checked over the P-model, for every rule head (constructor arguments = rule variables, attribute chains, indexes, "
               "calls, constants) and every body the user can write, any number of rule variables, heap and duplicate-free domains: "
@@ -179,9 +200,11 @@ CLAIMS = {
               "its expression under that same assignment; objects are passed by identity, constants whatever their truthiness). Tie: "
               "generated rules built in rule mode through infer(entity(H(...), body)); every constructed object must be a NEW instance of "
               "the head class, its fields are compared (heap objects by identity) with the model as a sequence and with the specification "
-              "as a multiset, caching off and on, evaluated twice."),
+              "as a multiset, caching off and on, evaluated twice. 30 % of the heads have a NESTED constructor argument W(w=t) (a variable over the "
+              "registered W instances restricted by its keyword, read as one more rule variable plus one more conjunct of the body; rows "
+              "compared as multisets), also inside histories in which the rule is first evaluated partly."),
         design='7/C11', technique='Coq proof (instances of the partition/counting invariant for selected expressions + binding lemmas by induction over terms and argument lists) + correspondence on constructed field tuples',
-        note=BASE_NOTE + " Nested constructor terms WITHOUT a domain inside a head are registry look-ups in the implementation (C14) and are not generated; nested terms with a domain are variables (C13). The registry side effect of inference is C14's. One defect was repaired in /repo (arguments combined by Cartesian product)."),
+        note=BASE_NOTE + " A nested constructor term without a domain inside a head is a registry look-up in the implementation (C14): it is generated, and modelled by ELABORATION (one more variable over the registered instances, one more equality) - the elaboration is part of the harness, tied by the correspondence, and the order of the instances of such rules is not modelled; nested terms with a domain are variables (C13). The registry side effect of inference is C14's. Two defects were repaired in /repo (arguments combined by Cartesian product; keyword constraint of a nested argument dropped after an abandoned evaluation)."),
     'C04': dict(
         text=("Machine-checked over the lazy-domain model (a line-by-line model of HashedIterable: memoised prefix + unconsumed remainder, "
               "evaluation as a process that records the domain state at the moment each row is delivered): C04_history_independent (one "
@@ -201,9 +224,15 @@ CLAIMS = {
               "C07_exact_prefix (for every qualification predicate - every condition tree and dataset -, every one-shot domain of distinct "
               "objects and every k: when the k-th result is delivered exactly the prefix ending at the k-th qualifying element has been "
               "pulled), C07_take_is_prefix, C07_never_pulled_twice / C07_pulls_monotone (after ANY history of partial, aborted and full "
-              "evaluations the iterator's remainder is a suffix of what was supplied and only shrinks). Tie: the domain is a logging "
+              "evaluations the iterator's remainder is a suffix of what was supplied and only shrinks), C07_pulls_as_specified (after EVERY step "
+              "of EVERY such history over ANY domain, repetitions included, the number of elements read equals the longest prefix any step "
+              "so far needed - what a step needs being stated on the supplied sequence alone: the shortest prefix holding k distinct "
+              "qualifying objects for take k, j distinct guard-passing objects for an evaluation aborted at the j-th predicate call, "
+              "everything for a full evaluation). The loop of HashedIterable.__iter__ (skip memoised ids; memoise before handing out) is "
+              "re-read from hashed_data.py by the translator on every run and the model is parameterised by it. Tie: the domain is a logging "
               "one-shot iterator; after EVERY step of generated histories the number of elements pulled and memoised and the rows "
-              "delivered are compared with the model; declaring the variable and building the queries must pull nothing."),
+              "delivered are compared with the model, the pull counts also with the demand specification (caching off and on); declaring the "
+              "variable and building the queries must pull nothing; one case in eight has 21-30 objects and condition-less queries."),
         design='7/C07', technique='Coq proof (induction over the domain and over operation histories on the lazy-domain model) + step-wise correspondence on a logging one-shot iterator',
         note=BASE_NOTE + " That a single-variable condition tree is evaluated once per delivered element (the left-most leaf enumerates the domain, every other leaf sees the variable bound) is C01's evaluator theorem plus this correspondence; time-to-first-result as wall-clock time is not modelled (pull counts are). The predicate-form type filter (lazy `filter(isinstance)`) is exercised because every domain goes through let()."),
 }
